@@ -62,11 +62,11 @@ class Gen2:
         if p == "uint32" or p == "int32":
             return r.choice([0, 0, 1, 2, 0xFFFFFFFF, 0x80000000, r.below(2 ** 32), r.below(100)])
         if p == "float32":
-            return r.choice(F32 + ([0x80000000] if self.negzero else []) + [r.below(2 ** 32)])
+            return r.choice(F32 + [0x80000000, r.below(2 ** 32)])        # -0.0 is an ordinary value (`negzero` is kept for callers)
         if p in ("uint64", "int64"):
             return r.choice([0, 0, 1, 2 ** 64 - 1, 2 ** 63, r.below(2 ** 64), r.below(1000)])
         if p == "float64":
-            return r.choice(F64 + ([2 ** 63] if self.negzero else []) + [r.below(2 ** 64)])
+            return r.choice(F64 + [2 ** 63, r.below(2 ** 64)])
         if p == "string":
             if self.huge and r.chance(1, self.huge):
                 n = r.choice(cc.HUGE_LENS)
@@ -168,10 +168,8 @@ class Gen2:
         raise ValueError(p)
 
     def prim_empty(self, p, x):
-        if p == "float32":
-            return x % 2 ** 31 == 0
-        if p == "float64":
-            return x % 2 ** 63 == 0
+        # floats are raw bit patterns: empty iff the pattern is zero (the generated writer tests `(x != 0 || 1/x < 0)`), so -0.0
+        # (0x80000000 / 2**63) is written out like any other value
         if p == "string":
             return len(x) == 0
         return not x
